@@ -92,3 +92,40 @@ Lemma md_idx_range l i : bytes_ok l -> 0 <= i < zlen l -> exists v, cd_idx l i =
 Proof.
   intros Hb H1. rewrite cd_idx_ok by lia. eexists; split; [reflexivity|]. apply bytes_ok_nth; assumption.
 Qed.
+
+(* ---------------------------------------------------------------- generic fuelled loop
+   `body s` = one round of a Go for-loop in state s: Ok None = the loop condition is false (exit),
+   Ok (Some (a, s')) = one element produced, next state; Err / Panic leave the function.
+   Err 99 = out of fuel (excluded by md_loop_good under a decreasing measure). *)
+Fixpoint md_loop {St A : Type} (fuel : nat) (body : St -> outcome (option (A * St))) (s : St) : outcome (list A) :=
+  match fuel with
+  | O => Err 99
+  | S f =>
+    match body s with
+    | Ok None => Ok []
+    | Ok (Some (a, s')) => match md_loop f body s' with Ok l => Ok (a :: l) | Err e => Err e | Panic p => Panic p end
+    | Err e => Err e
+    | Panic p => Panic p
+    end
+  end.
+
+Definition md_good {A} (o : outcome A) : Prop := is_panic o = false /\ o <> Err 99.
+Lemma md_good_ok {A} (v : A) : md_good (Ok v). Proof. split; [reflexivity|discriminate]. Qed.
+Lemma md_good_err {A} e : e <> 99 -> md_good (@Err A e). Proof. intros H. split; [reflexivity|congruence]. Qed.
+Lemma md_good_bind {A B} (o : outcome A) (f : A -> outcome B) : md_good o -> (forall v, o = Ok v -> md_good (f v)) -> md_good (obind o f).
+Proof.
+  intros [G1 G2] H. destruct o as [v|e|s]; cbn [obind]; [apply H; reflexivity|split; [reflexivity|intros E; apply G2; inversion E; reflexivity]|discriminate].
+Qed.
+
+Lemma md_loop_good {St A : Type} (body : St -> outcome (option (A * St))) (I : St -> Prop) (m : St -> Z) :
+  (forall s, I s -> 0 <= m s) ->
+  (forall s, I s -> md_good (body s) /\ forall a s', body s = Ok (Some (a, s')) -> I s' /\ m s' < m s) ->
+  forall fuel s, I s -> m s < Z.of_nat fuel -> md_good (md_loop fuel body s).
+Proof.
+  intros H0 H. induction fuel as [|f IH]; intros s Hi Hm; [specialize (H0 s Hi); lia|].
+  cbn [md_loop]. destruct (H s Hi) as [[G1 G2] Hs].
+  destruct (body s) as [[[a s']|]|e|p] eqn:Eb; [|apply md_good_ok|apply md_good_err; intros ->; apply G2; reflexivity|discriminate].
+  destruct (Hs a s' eq_refl) as [Hi' Hm'].
+  destruct (IH s' Hi' ltac:(lia)) as [L1 L2].
+  destruct (md_loop f body s') as [l|e|p]; [apply md_good_ok|apply md_good_err; intros ->; apply L2; reflexivity|discriminate].
+Qed.
